@@ -387,6 +387,7 @@ func runC03(c *an.Ctx) {
 			checkArith(c, "C03.c", []*ssa.Function{ssAppend}, map[string]bool{"index": true, "slice": true, "usub": true}, nil, nil)
 			checkAdjacencyExact(c, "C03.c", ssAppend)
 			checkCacheMoveThenAppend(c, "C03.c")
+			checkHeadCacheRestoredOnFailedAppend(c, "C03.c")
 		}
 	}
 
